@@ -193,13 +193,58 @@ func runCheck(o *options) int {
 		go func(ob *Obligation) {
 			defer wg.Done()
 			defer func() { <-sem }()
-			text := func(noLambda bool) string { return ob.query(prelude, noLambda, false) }
 			if o.dump != "" {
 				os.MkdirAll(o.dump, 0o755)
-				os.WriteFile(filepath.Join(o.dump, sanitize(ob.ID)+".smt2"), []byte(text(false)), 0o644)
+				os.WriteFile(filepath.Join(o.dump, sanitize(ob.ID)+".smt2"), []byte(ob.query(prelude, false, false)), 0o644)
 			}
-			ob.Res, ob.All = solve(tmp, text, o.quickS, o.fullS)
+			// every conjunct of the goal is a query of its own; all must be unsat
+			var total float64
+			for i, part := range ob.parts {
+				part := part
+				text := func(noLambda bool) string { return ob.queryGoal(prelude, noLambda, false, part) }
+				res, all := solve(tmp, text, o.quickS, o.fullS)
+				total += res.timeS
+				ob.All = append(ob.All, all...)
+				ob.Res = res
+				if res.status != "unsat" {
+					ob.failedPart = i
+					break
+				}
+			}
+			ob.Res.timeS = total
 		}(ob)
+	}
+	// vacuity: every return must be reachable under the assumptions in force
+	// (a contradictory requires / invariant / library assumption would make
+	// every obligation behind it pass trivially)
+	for _, r := range results {
+		if r.ctx == nil {
+			continue
+		}
+		for _, vc := range r.ctx.vacuity {
+			wg.Add(1)
+			sem <- struct{}{}
+			go func(c *FnCtx, vc *vacuityCheck) {
+				defer wg.Done()
+				defer func() { <-sem }()
+				text := func(noLambda bool) string {
+					var b strings.Builder
+					b.WriteString("(set-logic ALL)\n")
+					b.WriteString(prelude)
+					for _, cm := range c.cmds[:vc.cmdN] {
+						if cm.only != "" {
+							continue
+						}
+						b.WriteString(cm.render(noLambda))
+						b.WriteByte('\n')
+					}
+					b.WriteString("(assert " + vc.reach + ")\n(check-sat)\n")
+					return b.String()
+				}
+				res, _ := solve(tmp, text, 2, 2)
+				vc.status = res.status
+			}(r.ctx, vc)
+		}
 	}
 	wg.Wait()
 	solveS := time.Since(t0).Seconds() - loadS - genS
@@ -217,8 +262,16 @@ func partialClaims(fc *FuncContract, ob *Obligation) bool {
 	return false
 }
 
-// query renders the SMT-LIB text of an obligation.
+// query renders the SMT-LIB text of an obligation (whole goal, or the conjunct that failed).
 func (ob *Obligation) query(prelude string, noLambda bool, model bool) string {
+	g := ob.goal
+	if ob.Res.status != "" && ob.Res.status != "unsat" && ob.failedPart < len(ob.parts) {
+		g = ob.parts[ob.failedPart]
+	}
+	return ob.queryGoal(prelude, noLambda, model, g)
+}
+
+func (ob *Obligation) queryGoal(prelude string, noLambda bool, model bool, goal string) string {
 	var b strings.Builder
 	if model {
 		b.WriteString("(set-option :produce-models true)\n")
@@ -235,6 +288,6 @@ func (ob *Obligation) query(prelude string, noLambda bool, model bool) string {
 	for _, x := range ob.extra {
 		b.WriteString("(assert " + x + ")\n")
 	}
-	b.WriteString("(assert (not " + ob.goal + "))\n(check-sat)\n")
+	b.WriteString("(assert (not " + goal + "))\n(check-sat)\n")
 	return b.String()
 }
